@@ -180,6 +180,23 @@ def r_order(ctx, model):
               if any("ALIGNED_ON_FRESH_ROW_LABELS" in b for b in bad) else
               "the solved components are written back under the wrong names (symbol order differs between the "
               "system matrix and the write-back)", key="order.writeback")
+    # the same table under every combination of the two flags (a path that restores supplied numbers when residuals are ignored, say, must restore each under its own name)
+    for flags in ({"ignore_residuals": True}, {"ignore_rank": True}, {"ignore_residuals": True, "ignore_rank": True}):
+        sc2 = Scenario(system="cubic", columns=cols, resid=1000 if flags.get("ignore_residuals") else 0, kwargs=dict(flags))
+        res2 = run_fill(model, sc2, ctx)
+        bad2 = []
+        if res2[0] != "ok":
+            bad2.append(f"refused with {res2[1]}")
+        else:
+            order2 = sc2.lineq_syms
+            for p2, s2 in enumerate(order2):
+                tgt = next((c for c in res2[1].cols if c.lower() == s2), None)
+                own = [sp.Symbol(f"X{p2}", real=True)] + ([sp.Symbol(f"COL_{tgt}", real=True)] if tgt in cols else [])
+                if tgt is not None and res2[1].cols[tgt] not in own:
+                    bad2.append(f"{s2} <- {res2[1].cols[tgt]}")
+        ctx.check(not bad2, f"with {flags}: every component holds its own solved (or its own supplied) values", w, expected="column of symbol p = solution row p, or the column as it was supplied",
+                  found="; ".join(bad2[:4]) or "as required", explanation="with this combination of flags a component receives the values of ANOTHER component (supplied numbers restored by position in "
+                  "canonical symbol order instead of by the symbol each supplied column belongs to: wrong whenever the table's columns are not in canonical order)", key=f"order.flags.{'+'.join(sorted(flags))}")
     keep = [c for c in ("V", "extra") if out.cols.get(c) != sp.Symbol(f"COL_{c}", real=True)]
     ctx.check(not keep and list(out.cols)[:len(cols)] == cols, "non-modulus columns pass through; existing names are reused", w,
               expected="V, extra unchanged; C12 reused (no duplicate c12)", found=f"changed {keep}; columns {list(out.cols)[:8]}",
